@@ -1,7 +1,10 @@
-use std::{
-    marker::PhantomData,
-    time::{Duration, Instant},
-};
+use std::{marker::PhantomData, time::Duration};
+
+#[cfg(not(feature = "verif-hooks"))]
+use std::time::Instant;
+// verif hook H2: idle age reads tokio's (pausable) clock under simulation.
+#[cfg(feature = "verif-hooks")]
+use tokio::time::Instant;
 
 use tracing::trace;
 
